@@ -118,17 +118,27 @@ func (c *sqlQueryChecker) funcIsExec(fn *types.Func) bool {
 }
 
 func (c *sqlQueryChecker) typeHasExecMethod(typ types.Type) bool {
+	return c.typeHasExecMethodSeen(typ, map[types.Type]bool{})
+}
+
+// typeHasExecMethodSeen is typeHasExecMethod over a type graph that may contain cycles
+// (a struct embedding a pointer to itself, mutually embedding structs).
+func (c *sqlQueryChecker) typeHasExecMethodSeen(typ types.Type, seen map[types.Type]bool) bool {
+	if seen[typ] {
+		return false
+	}
+	seen[typ] = true
 	switch typ := typ.(type) {
 	case *types.Struct:
 		for i := 0; i < typ.NumFields(); i++ {
-			if c.typeHasExecMethod(typ.Field(i).Type()) {
+			if c.typeHasExecMethodSeen(typ.Field(i).Type(), seen) {
 				return true
 			}
 		}
 	case *types.Alias:
 		switch typ := typ.Underlying().(type) {
 		case *types.Interface:
-			return c.typeHasExecMethod(typ)
+			return c.typeHasExecMethodSeen(typ, seen)
 		default:
 			// TODO(cristaloleg): is there something else to handle?
 		}
@@ -139,7 +149,7 @@ func (c *sqlQueryChecker) typeHasExecMethod(typ types.Type) bool {
 			}
 		}
 	case *types.Pointer:
-		return c.typeHasExecMethod(typ.Elem())
+		return c.typeHasExecMethodSeen(typ.Elem(), seen)
 	case *types.Named:
 		for i := 0; i < typ.NumMethods(); i++ {
 			if c.funcIsExec(typ.Method(i)) {
@@ -148,7 +158,7 @@ func (c *sqlQueryChecker) typeHasExecMethod(typ types.Type) bool {
 		}
 		switch ut := typ.Underlying().(type) {
 		case *types.Interface:
-			return c.typeHasExecMethod(ut)
+			return c.typeHasExecMethodSeen(ut, seen)
 		case *types.Struct:
 			// Check embedded types.
 			for i := 0; i < ut.NumFields(); i++ {
@@ -156,7 +166,7 @@ func (c *sqlQueryChecker) typeHasExecMethod(typ types.Type) bool {
 				if !field.Embedded() {
 					continue
 				}
-				if c.typeHasExecMethod(field.Type()) {
+				if c.typeHasExecMethodSeen(field.Type(), seen) {
 					return true
 				}
 			}
